@@ -432,8 +432,9 @@ def extra(repo, reg, tier, seed):
               witness=w, confirmed=True if w else None, func=f"{LS}.get_all_references",
               detail=f"bounded: {n} generated multi-file programs (the C05 model: shadowing, USE with ONLY and renames, re-export, "
                      f"mixed-case spellings), {ne} entities: every use site the model binds to the declaration is among its "
-                     "references, every reference spans the identifier and resolves back to the declaration, and the set is the same "
-                     "when asked from another occurrence")
+                     "references, every reference spans the identifier and resolves back to the declaration, the set is the same "
+                     "when asked from another occurrence; rename edits are exactly the references and the edited program resolves "
+                     "every occurrence to the renamed declaration")
     it.count = ne
     items.append(it)
     w = native_renamed_use()
